@@ -318,8 +318,81 @@ class World:
         return None
 
 
+def op_source(op, obj='cache'):
+    """Python source of one operation (for standalone replay scripts)."""
+    name, a = op[0], op[1:]
+    v = lambda t: repr(val(t))     # noqa: E731
+    kw = lambda bits, drop=(): ', '.join(     # noqa: E731
+        '%s=%r' % (k, x) for k, x in flags(bits).items() if k not in drop)
+    if name == 'tick':
+        return 'clock[0] += %r' % (a[0],)
+    if name in ('set', 'add'):
+        return '%s.%s(%r, %s, expire=%r, tag=%r)' % (obj, name, a[0], v(a[1]),
+                                                     a[2], a[3])
+    if name == 'setitem':
+        return '%s[%r] = %s' % (obj, a[0], v(a[1]))
+    if name == 'get':
+        return '%s.get(%r%s)' % (obj, a[0], (', ' + kw(a[1])) if a[1] else '')
+    if name == 'getitem':
+        return '%s[%r]' % (obj, a[0])
+    if name == 'read':
+        return '%s.read(%r)' % (obj, a[0])
+    if name == 'contains':
+        return '%r in %s' % (a[0], obj)
+    if name == 'touch':
+        return '%s.touch(%r, expire=%r)' % (obj, a[0], a[1])
+    if name in ('incr', 'decr'):
+        return '%s.%s(%r, %r, %r)' % (obj, name, a[0], a[1], a[2])
+    if name == 'pop':
+        k = kw(a[1], ('read',))
+        return '%s.pop(%r%s)' % (obj, a[0], (', ' + k) if k else '')
+    if name == 'delete':
+        return '%s.delete(%r)' % (obj, a[0])
+    if name == 'delitem':
+        return 'del %s[%r]' % (obj, a[0])
+    if name in ('clear', 'expire', 'cull'):
+        return '%s.%s()' % (obj, name)
+    if name == 'evict':
+        return '%s.evict(%r)' % (obj, a[0])
+    if name == 'len':
+        return 'len(%s)' % obj
+    if name == 'keys':
+        return 'list(%s)' % obj
+    if name == 'rkeys':
+        return 'list(reversed(%s))' % obj
+    if name == 'iterkeys':
+        return 'list(%s.iterkeys(reverse=%r))' % (obj, a[0])
+    if name == 'peekitem':
+        k = kw(a[1], ('read', 'default'))
+        return '%s.peekitem(%r%s)' % (obj, a[0], (', ' + k) if k else '')
+    if name == 'stats':
+        return '%s.stats(enable=%r, reset=%r)' % (obj, a[0], a[1])
+    if name == 'push':
+        return '%s.push(%s, prefix=%r, side=%r, expire=%r, tag=%r)' % (
+            obj, v(a[0]), a[1], a[2], a[3], a[4])
+    if name in ('pull', 'peek'):
+        return '%s.%s(prefix=%r, side=%r)' % (obj, name, a[0], a[1])
+    return '# %r' % (op,)
+
+
 class CacheWorld(World):
     """diskcache.Cache against SpecCache."""
+
+    def script(self, hist):
+        lines = ['import tempfile', 'from unittest import mock',
+                 'import diskcache', '', 'clock = [%r]' % T0,
+                 "with mock.patch('time.time', lambda: clock[0]):",
+                 '    cache = diskcache.%s(tempfile.mkdtemp()%s)' % (
+                     type(self.cache).__name__,
+                     ''.join(', %s=%r' % kv for kv in
+                             sorted(self.settings.items())))]
+        for op in hist:
+            src = op_source(op)
+            if src.startswith(('clock', 'del ', '#')) or ' = ' in src:
+                lines.append('    ' + src)
+            else:
+                lines.append('    print(%r, "->", %s)' % (src, src))
+        return '\n'.join(lines)
 
     def __init__(self, settings=None, track_stats=True):
         import diskcache
